@@ -117,6 +117,17 @@ func runRacePass(c *xs.Ctx, r *xs.Result) {
 		}
 		r.Violate("C14:race:"+strings.Join(frames, "|"), "data race reported by the free-running -race pass of the scenario bodies:\n"+text, map[string]interface{}{"part": "race"})
 	case err != nil:
+		t := text
+		if i := strings.Index(t, "panic: "); i >= 0 {
+			t = t[i:]
+		}
+		if len(t) > 3000 {
+			t = t[:3000]
+		}
+		if frame, inNode := xs.CrashSite(t); inNode {
+			r.Violate("C14:free-running:node-code-panics:"+frame, "the free-running pass of the scenario bodies died inside go-zenon code:\n"+t, map[string]interface{}{"part": "race"})
+			return
+		}
 		panic(fmt.Sprintf("race pass failed (exit %d): %s", code, tailStr(text, 1500)))
 	default:
 		var nexec int
